@@ -60,11 +60,13 @@ class Gen:
         self.tables = tables
         self.alias_n = 0
         self.o = dict(subqueries=True, joins=True, groups=True, setops=True, ctes=True, order=True,
-                      case=True, inlist=True, lateral=False, semi=False, max_depth=3, join_bias=False)
+                      case=True, inlist=True, lateral=False, semi=False, max_depth=3, join_bias=False, views=False)
         if opts:
             self.o.update(opts)
         self.ctes = []     # (name, Q) available for FROM
         self.prelude = []  # statements to run before the query (views)
+        self.views = []    # (name, Q) created by the prelude
+        self.view_n = 0
 
     # ------------------------------------------------------------ helpers
     def alias(self, p="x"):
@@ -247,6 +249,12 @@ class Gen:
             sub = self.select(outer, depth - 1, want=None, classes=classes, plain=r.chance(60), corr=False)
             self._last_est = 40
             return "(%s) AS %s" % (sub.sql, al), "(fq %s)" % sub.sx, list(zip(sub.names, sub.types)), al
+        if self.views and r.chance(30):
+            name, sub = r.choice(self.views)
+            classes.add("view")
+            classes |= sub.classes
+            self._last_est = 40
+            return "%s AS %s" % (name, al), "(fq %s)" % sub.sx, list(zip(sub.names, sub.types)), al
         if k < 4 and self.ctes:
             # each CTE is referenced at most once per statement in this stream: two references to one CTE
             # share table refs inside the engine (self-joins of a CTE are a listed known finding)
@@ -271,6 +279,27 @@ class Gen:
         est = self._last_est
         scope_cols = [Col("%s.%s" % (al, c), t, i) for i, (c, t) in enumerate(cols)]
         for _ in range(n - 1):
+            if self.o["lateral"] and depth >= 2 and r.chance(25) and est <= 200:
+                # <left>, LATERAL (sub) / <left> INNER JOIN LATERAL (sub) ON cond: sub sees the left row at depth 1
+                left_scope = Scope(scope_cols)
+                sub = self.select([left_scope] + outer, depth - 1, want=None, classes=classes, plain=r.chance(50), corr=True)
+                ral = self.alias()
+                la = len(scope_cols)
+                rcols = list(zip(sub.names, sub.types))
+                rscope = [Col("%s.%s" % (ral, c), t, la + i) for i, (c, t) in enumerate(rcols)]
+                classes.add("lateral")
+                classes.add("correlated")
+                if r.chance(60):
+                    sql = "%s, LATERAL (%s) AS %s" % (sql, sub.sql, ral) if _ == n - 2 else \
+                          "%s CROSS JOIN LATERAL (%s) AS %s" % (sql, sub.sql, ral)
+                    sx = "(lateral cross %s %s - %d)" % (sx, sub.sx, len(rcols))
+                else:
+                    on = self.join_cond(Scope(scope_cols + rscope), scope_cols, rscope, outer, classes)
+                    sql = "%s INNER JOIN LATERAL (%s) AS %s ON %s" % (sql, sub.sql, ral, on[0])
+                    sx = "(lateral inner %s %s %s %d)" % (sx, sub.sx, on[1], len(rcols))
+                scope_cols = scope_cols + rscope
+                est *= 20
+                continue
             # the reference evaluation materialises the product before filtering: bound its size
             rsql, rsx, rcols, ral = self.from_item(outer, depth, classes)
             if est * self._last_est > 30000:
@@ -532,6 +561,13 @@ class Gen:
         classes = set()
         with_sql = ""
         self.ctes = []
+        if self.o["views"] and r.chance(30) and len(self.views) < 4:
+            self.view_n += 1
+            vname = "v%d" % self.view_n
+            vq = self.select([], max(1, depth - 1), classes=set(), plain=r.chance(50))
+            vq.classes.add("view_def")
+            self.prelude.append("CREATE TEMP VIEW %s AS %s" % (vname, vq.sql))
+            self.views.append((vname, vq))
         if self.o["ctes"] and r.chance(20):
             cname = "cte%d" % r.below(100)
             cq = self.select([], depth - 1, classes=set(), plain=r.chance(50))
